@@ -152,6 +152,7 @@ class fvm1d(base):
         return self.residual
 
     def add_source(self):
+        self.model.initdisc(self.mesh) # mesh dependent terms of the model (nozzle) are those of THIS mesh, model may be shared
         for i in range(self.neq):
             if self.model.source[i]:
                 self.residual[i] += self.model.source[i](self.mesh.centers(), self.qdata)
